@@ -3471,6 +3471,7 @@ def commit_tree_changes(
         assert isinstance(sha_obj, Tree)
         tree_obj = sha_obj
     nested_changes: dict[bytes, list[tuple[bytes, int | None, ObjectID | None]]] = {}
+    new_entries: list[tuple[bytes, int, ObjectID]] = []
     for path, new_mode, new_sha in changes:
         try:
             (dirname, subpath) = path.split(b"/", 1)
@@ -3479,7 +3480,7 @@ def commit_tree_changes(
                 del tree_obj[path]
             else:
                 assert new_mode is not None
-                tree_obj[path] = (new_mode, new_sha)
+                new_entries.append((path, new_mode, new_sha))
         else:
             nested_changes.setdefault(dirname, []).append((subpath, new_mode, new_sha))
     for name, subchanges in nested_changes.items():
@@ -3495,6 +3496,10 @@ def commit_tree_changes(
             del tree_obj[name]
         else:
             tree_obj[name] = (stat.S_IFDIR, subtree.id)
+    # Set the entries of this tree last, so that a directory whose contents
+    # are removed by the same change list can be replaced by a file.
+    for path, new_mode, new_sha in new_entries:
+        tree_obj[path] = (new_mode, new_sha)
     object_store.add_object(tree_obj)
     return tree_obj.id
 
